@@ -263,6 +263,17 @@ class Future(BaseFuture):
         else:
             return str(value)
 
+    @property
+    def value(self) -> Optional[int]:
+        """Get the value of the future.
+        If it's not set yet, `None` is returned."""
+        # The array entry can be written again by a later subroutine, so always
+        # look at the shared memory and only fall back on the value seen last.
+        value = self._try_get_value()
+        if value is None:
+            return self._value
+        return value
+
     def _try_get_value(self) -> Optional[int]:
         if not isinstance(self._index, int):
             raise NonConstantIndexError("index is not constant and cannot be resolved")
